@@ -25,7 +25,14 @@ fn build_config(n: &BuildNode) -> BuildConfig {
     } else {
         std::path::PathBuf::from(std::env::var("CARGO_MANIFEST_DIR").expect("CARGO_MANIFEST_DIR")).join("fixtures/app")
     };
-    let mut cfg = BuildConfig::new(c.builder.clone(), app);
+    let mut cfg = if c.app_dir_via_setter {
+        // the documented base-config pattern: a config is created first, the app dir set later
+        let mut cfg = BuildConfig::new(c.builder.clone(), "fixtures/does-not-matter");
+        cfg.app_dir(app);
+        cfg
+    } else {
+        BuildConfig::new(c.builder.clone(), app)
+    };
     cfg.buildpacks(c.buildpacks.iter().map(|b| BuildpackReference::Other(b.clone())).collect::<Vec<_>>());
     for (k, v) in &c.env {
         cfg.env(k.clone(), v.clone());
@@ -34,9 +41,11 @@ fn build_config(n: &BuildNode) -> BuildConfig {
         cfg.env("VERIF_PACK_FAILS", "1");
     }
     if let Some(content) = c.preprocessor.clone() {
+        let edit = c.preprocessor_edit;
         cfg.app_dir_preprocessor(move |dir| {
             position("app_dir_preprocessor");
             std::fs::write(dir.join("added-by-preprocessor.txt"), &content).expect("preprocessor write");
+            simcore::e4::preprocessor_edit(&dir, edit).expect("preprocessor edit");
         });
     }
     cfg.expected_pack_result(if c.expect_failure { PackResult::Failure } else { PackResult::Success });
